@@ -311,6 +311,7 @@ LEVEL_TEXT = ('Finite part enumerated exhaustively on every run: 14 shipped tabl
               'with the file on disk, reload equality, and every structural identity the transforms and backward passes rely on). '
               'Generated part: operation histories interleaving loads, cache drops, module constructions, forward and backward '
               'calls, with the invariant that every table still equals its file after each step.')
+LEVEL_TEXT += (' Every loader that accepts a name must hand out the arrays of the shipped file; histories include requests through a loader that does not fit the table and the legacy DTCWTForward2/Inverse2 classes.')
 LEVEL_NOTE = ('The table x identity grid is complete; histories are sampled (<= 30 steps). farras / near_sym_a2 are outside '
               'the identities (they are not level-1/q-shift tables of the documented loaders) and only checked for load '
               'equality.')
